@@ -10,7 +10,7 @@ LastStep == IF sched = <<>> THEN <<>> ELSE
                                                 s.msg.scid, s.msg.ver, s.msg.limit, s.msg.pubkey, s.msg.asset, s.msg.amt, s.msg.sid = "new", s.msg.raw, s.msg.raw_type>> ELSE <<>>,
               IF "faults" \in DOMAIN s THEN s.faults ELSE <<>>, IF "crash" \in DOMAIN s THEN s.crash ELSE <<>>,
               IF "n" \in DOMAIN s THEN s.n ELSE 0, IF "kind" \in DOMAIN s THEN s.kind ELSE "">>
-Key == <<cf.name, LastStep, nd.up, {<<nd.disk[s].role, nd.disk[s].prev, nd.disk[s].cur>> : s \in DOMAIN nd.disk}, {nd.mem[s].cur : s \in nd.reg}, viol>>
+Key == <<cf.name, LastStep, nd.up, {<<nd.disk[s].role, nd.disk[s].prev, nd.disk[s].cur>> : s \in DOMAIN nd.disk}, {nd.mem[s].cur : s \in nd.reg}, nd.predisk, viol>>
 Cover ==
   IF nd.phase = "idle" /\ sched # <<>> /\ Key \notin TLCGet(1)
   THEN /\ TLCSet(1, TLCGet(1) \cup {Key})
